@@ -453,6 +453,38 @@ func c04Facts(repo string, w *strings.Builder) error {
 	fmt.Fprintf(w, "def guardStart : List String := %s\n", leanStrList(guardStart))
 	fmt.Fprintf(w, "def guardPart : List String := %s\n", leanStrList(guardPart))
 	fmt.Fprintf(w, "def guardBody : List String := %s\n", leanStrList(guardBody))
+	// ---------------- (5) number formatting calls of the formatter: strconv.Format*(…) with every argument's text
+	w.WriteString("\n/-- every strconv.Format… call of cypher/models/pgsql/format: (line, enclosing function, callee, arguments) -/\n")
+	w.WriteString("def formatCalls : List (Nat × String × String × List String) := [\n")
+	{
+		var rows []string
+		for _, f := range files {
+			for _, d := range f.Decls {
+				fd, ok := d.(*ast.FuncDecl)
+				if !ok || fd.Body == nil {
+					continue
+				}
+				ast.Inspect(fd.Body, func(n ast.Node) bool {
+					call, ok := n.(*ast.CallExpr)
+					if !ok {
+						return true
+					}
+					name := c04Print(fset, call.Fun)
+					if strings.HasPrefix(name, "strconv.") || strings.HasPrefix(name, "fmt.Sprint") {
+						var args []string
+						for _, a := range call.Args {
+							args = append(args, c04Print(fset, a))
+						}
+						rows = append(rows, fmt.Sprintf("  (%d, %s, %s, %s)", fset.Position(call.Pos()).Line, leanStr(fd.Name.Name), leanStr(name), leanStrList(args)))
+					}
+					return true
+				})
+			}
+		}
+		sort.Strings(rows)
+		w.WriteString(strings.Join(rows, ",\n"))
+	}
+	w.WriteString("\n]\n")
 	// ---------------- (4) option parameters of the entry points
 	opts, err := c04EntryOptions(repo)
 	if err != nil {
